@@ -1,6 +1,7 @@
 package verifsim
 
 import (
+	"strings"
 	"encoding/base64"
 	"encoding/json"
 	"fmt"
@@ -619,6 +620,21 @@ func genC04(g *G, sc *Scenario, tier string) {
 		if sc.Ops[i].K == "txn" && g.P(0.3) {
 			sc.Ops[i].K = "ctxtxn"
 		}
+	}
+	if g.P(0.06) {
+		// a batch larger than what the store takes in one transaction (with or without an entity it must refuse at the
+		// end): all of it or nothing of it, also when the process dies half way
+		big := strings.Repeat("x", 140<<10)
+		var ents []Ent
+		for k := 0; k < 10; k++ {
+			ents = append(ents, Ent{"id": fmt.Sprintf("%sbig%d", MkE, k), "props": map[string]any{MkS + "blob": big + fmt.Sprint(k)}, "refs": map[string]any{}})
+		}
+		op := Op{K: "batch", DS: g.Pick(c.Datasets), Ents: ents, M: map[string]any{"mayReject": true}}
+		if g.P(0.5) {
+			op.Ents = append(op.Ents, Ent{"id": MkE + "bigbad", "props": map[string]any{}, "refs": map[string]any{MkS + "p0": nil}})
+		}
+		at := g.Intn(len(sc.Ops) + 1)
+		sc.Ops = append(sc.Ops[:at:at], append([]Op{op}, sc.Ops[at:]...)...)
 	}
 	// named crash points
 	if g.P(0.15) {
